@@ -37,6 +37,50 @@ def _mk(item):
     return ('ok', minify.make_trace(src, out, 'C19', []), (src, out, ncom))
 
 
+def cli_path(ctx):
+    """the header through `p8tool luamin` on cart files (.p8 and .p8.png), incl. comments that merely mention an
+    #include directive (a file of that name exists next to the cart)"""
+    import tempfile
+    from pico8 import tool
+    from pico8.game import file as gfile
+    from .. import cartio
+    d = tempfile.mkdtemp(prefix='c19_', dir=ctx.tmp)
+    open(os.path.join(d, 'lib.lua'), 'wb').write(b'lib_loaded=1\n')
+    fixture = open(os.path.join(core.VERIF, 'fixtures', 'lua', 'every_node.lua'), 'rb').read()
+    srcs = [b'-- my game\n-- by me\nx=1 y=2\n', b'-- title, see #include lib.lua\n-- by me (#include lib.lua)\nx=1 -- #include lib.lua\ny=2\n',
+            b'//t\n--[[by\nme]]\nfunction _draw() cls() end -- c\n', b'-- t\n\n-- b\n' + fixture]
+    traces, meta = [], []
+    for k, src in enumerate(srcs):
+        for ext in ('.p8', '.p8.png'):
+            ip = os.path.join(d, 'c%d%s' % (k, ext))
+            if ext == '.p8':
+                open(ip, 'wb').write(b'pico-8 cartridge // http://www.pico-8.com\nversion 16\n__lua__\n' + src + b'__gfx__\n')
+            else:
+                gfile.to_file(cartio.make_game(cartio.memory((0, 0), {}), src, None, 16), ip)
+            outp = ip.replace('.p8', '_fmt.p8', 1)
+            try:
+                rc = tool.main(['--quiet', 'luamin', ip])
+            except SystemExit as e:
+                rc = e.code
+            except Exception as e:  # noqa
+                rc = 'exception %s' % type(e).__name__
+            ctx.evaluations += 1
+            if rc not in (0, None) or not os.path.exists(outp):
+                ctx.violation('cli-fails/luamin%s' % ext, 'p8tool luamin failed on a %s cart (rc=%s): %r' % (ext, rc, src[:40]), {'kind': 'cli', 'src': list(src)})
+                continue
+            out = cartio.game_code(gfile.from_file(outp))
+            traces.append(minify.make_trace(src, out, 'C19', []))
+            meta.append((src, out, ext))
+    if traces:
+        v = ctx.validate('TraceMinify', traces)
+        for (src, out, ext), vv in zip(meta, v):
+            if vv[0] == 'ok':
+                ctx.nontrivial += 1
+            elif vv[0] != 'ood':
+                ctx.violation('cli-luamin%s/%s' % (ext, vv[0]), 'output of p8tool luamin for a %s cart rejected by the C19 clauses (%s): %r -> %r' % (ext, vv[0], src[:50], out[:50]),
+                              {'kind': 'cli', 'src': list(src)})
+
+
 def run(ctx):
     ctx.rule = ('all header shapes of <= N pieces over a 10-piece alphabet x program bodies; non-trivial = the shape has at least one comment before the first code token')
     ctx.assumptions = ['P8Lex.tla decides what the leading comments are', 'PICO-8 reads the first two comment lines as title and byline']
@@ -87,6 +131,7 @@ def run(ctx):
             hdr_shape = lexref.shape(src[:24])
             ctx.violation('%s/%s' % (vv[0], hdr_shape), 'luamin output rejected by the C19 clauses (%s: header = the first two comments verbatim on their own lines at the top; kind / end-mismatch = code and comments changed places further down): %r -> %r' % (vv[0], src[:40], out[:40]),
                           {'kind': 'hdr', 'src': list(src)})
+    cli_path(ctx)
     ctx.exhaustive = True
     if meta:
         s, o, c = meta[len(meta) // 3]
